@@ -218,13 +218,20 @@ type focusHandler struct {
 
 	// path is the path to the focused widet
 	path []Widget
+
+	// frame is the last laid out frame, from which path is computed
+	frame Surface
 }
 
 func (f *focusHandler) handleEvent(app *App, ev vaxis.Event) error {
 	app.consumeEvent = false
 
+	// A handler may move the focus, and with it f.path. This event keeps
+	// the route it started on
+	path := f.path
+
 	// Capture phase
-	for _, w := range f.path {
+	for _, w := range path {
 		c, ok := w.(EventCapturer)
 		if !ok {
 			continue
@@ -253,8 +260,8 @@ func (f *focusHandler) handleEvent(app *App, ev vaxis.Event) error {
 
 	// Bubble phase. We don't bubble to the focused widget (which is the
 	// last one in the list). Hence, - 2
-	for i := len(f.path) - 2; i >= 0; i -= 1 {
-		w := f.path[i]
+	for i := len(path) - 2; i >= 0; i -= 1 {
+		w := path[i]
 		cmd, err := w.HandleEvent(ev, BubblePhase)
 		if err != nil {
 			return err
@@ -270,16 +277,25 @@ func (f *focusHandler) handleEvent(app *App, ev vaxis.Event) error {
 }
 
 func (f *focusHandler) updatePath(app *App, root Surface) {
-	// Clear the path
-	f.path = []Widget{}
+	f.frame = root
 
-	ok := f.childHasFocus(root)
+	ok := f.findPath()
 	if !ok {
 		// Best effort refocus
 		_ = f.focusWidget(app, f.root)
 	}
+}
 
-	if f.root != root.Widget || len(f.path) == 0 {
+// findPath recomputes the path from the root widget to the focused widget
+// from the last frame. It reports whether the focused widget is part of that
+// frame
+func (f *focusHandler) findPath() bool {
+	// Clear the path
+	f.path = []Widget{}
+
+	ok := f.childHasFocus(f.frame)
+
+	if f.root != f.frame.Widget || len(f.path) == 0 {
 		// Make sure that we always add the original root widget as the
 		// last node. We will reverse the list, making this widget the
 		// first one with the opportunity to capture events
@@ -291,6 +307,7 @@ func (f *focusHandler) updatePath(app *App, root Surface) {
 	for i := 0; i < len(f.path)/2; i++ {
 		f.path[i], f.path[len(f.path)-1-i] = f.path[len(f.path)-1-i], f.path[i]
 	}
+	return ok
 }
 
 func (f *focusHandler) childHasFocus(s Surface) bool {
@@ -326,6 +343,9 @@ func (f *focusHandler) focusWidget(app *App, w Widget) error {
 	// newly focused widget changes focus again, we need to set this before
 	// the handleCommand call
 	f.focused = w
+	// Events are routed along the path, which has to follow the focus now
+	// and not only after the next frame
+	f.findPath()
 	cmd, err = w.HandleEvent(vaxis.FocusIn{}, TargetPhase)
 	if err != nil {
 		return err
@@ -389,6 +409,8 @@ func (a *App) Run(w Widget) error {
 	if err != nil {
 		return err
 	}
+
+	a.fh.updatePath(a, s)
 
 	mh := mouseHandler{
 		lastFrame: s,
